@@ -28,6 +28,10 @@ func main() {
 		out.Close()
 	case "tables":
 		dumpTables(os.Args[2])
+	case "fresh":
+		// one evaluation in a process that has evaluated nothing else: the reference for history independence
+		di, _ := strconv.Atoi(os.Args[2])
+		fmt.Println(evalOnce(string(unhx(os.Args[3])), di))
 	case "replay":
 		f, ok := replays[os.Args[2]]
 		if !ok {
